@@ -11,7 +11,7 @@
                          points at something that itself prints as null
      hook_law sd         classification of a struct's (MarshalJSON, UnmarshalJSON) pair *)
 From Coq Require Import List String Bool ZArith NArith Ascii Permutation.
-From MV Require Import Lib.GoJson Lib.GoJsonFacts Gen.CfgTypes Model.ConfigRT Model.EffConfig Proofs.ConfigRT Proofs.ConfigRTFull Proofs.EffConfig.
+From MV Require Import Lib.GoJson Lib.GoJsonFacts Gen.CfgTypes Model.ConfigRT Model.EffConfig Proofs.ConfigRT Proofs.ConfigRTFull Proofs.EffConfig Proofs.DurationCoder.
 Import ListNotations.
 Open Scope string_scope.
 
@@ -174,6 +174,29 @@ Example c19_example_full :
   (exists v', decode cfg_structs 64 (TNamed "v2.MOSNConfig") (encode cfg_structs 64 (TNamed "v2.MOSNConfig") w_cfg) = Some v') /\
   json_eqb (encode cfg_structs 64 (TNamed "v2.MOSNConfig") w_cfg) w_doc = false.
 Proof. exact example_full. Qed.
+
+(* THE DURATION CODER.  api.DurationConfig and the duration-valued shadow fields are dumped with time.Duration.String and
+   loaded with time.ParseDuration.  fmt_duration / parse_duration (Lib/GoJson.v) model the two functions (Go 1.18):
+   String with its unit selection (ns / micro sign s / ms below a second, then [h][m]s), the fraction with trailing zeros
+   removed, the sign; ParseDuration as the general scanner (optional sign, then one or more of: digits, optional dot and digits, unit name;
+   or "0"; the eight unit names) over
+   unbounded numbers.  For EVERY integer d - in particular every int64 nanosecond count, sub-millisecond values, the
+   minimum and the maximum included -  ParseDuration (String d) = d: no duration is changed by a dump and reload.
+   Modelling assumptions (stated, and checked on the real functions on every run, DurFmt / DurCase): the overflow exits
+   of ParseDuration are not taken on these inputs, and its float computation of the fraction is exact when the scale
+   divides the unit (String prints at most 9 / 6 / 3 fraction digits for s / ms / us). *)
+Theorem c19_duration_coder : forall d : Z, parse_duration (fmt_duration d) = Some d.
+Proof. exact parse_fmt_duration. Qed.
+Print Assumptions c19_duration_coder.
+Example c19_duration_examples :
+  fmt_duration 0 = "0s" /\ fmt_duration 1 = "1ns" /\ fmt_duration 200000 = ("200" ++ micro_s)%string /\
+  fmt_duration 1500000 = "1.5ms" /\ fmt_duration 5400000000000 = "1h30m0s" /\
+  fmt_duration 9223372036854775807 = "2562047h47m16.854775807s" /\
+  fmt_duration (-9223372036854775808) = "-2562047h47m16.854775808s" /\
+  parse_duration "0.5ms" = Some 500000%Z /\ parse_duration "1h0m0.000001s" = Some 3600000001000%Z /\
+  parse_duration "1.5h" = Some 5400000000000%Z /\ parse_duration "" = None /\ parse_duration "5" = None /\
+  parse_duration "0" = Some 0%Z.
+Proof. exact fmt_duration_examples. Qed.
 
 (* PATH (DIRECTORY) MODE of RouterConfiguration / ClusterManagerConfig.  The directory is a finite map file name ->
    document (Model/ConfigRT.v: dir, path_write = what MarshalJSON does to it - write one file per item, a later item with
